@@ -868,8 +868,9 @@ class PoolWorld(WorldBase):
                         body = [[c[1][i] for c in sv['cols']] for i in range(nr)]
                         if axis == 1:
                             body = [list(r) for r in zip(*body)] if body else []
+                        own_hier = (v.index if axis == 0 else v.columns).depth > 1  # a tuple held by a flat index is one label
                         for lab, row in zip(own, body):
-                            outer.append((norm(k), lab) if not isinstance(lab, tuple) else (norm(k),) + lab)
+                            outer.append((norm(k),) + lab if (own_hier and isinstance(lab, tuple)) else (norm(k), lab))
                             rows.append(row)
                     want = {'outer': outer, 'inner': col0, 'cells': rows if axis == 0 else [list(r) for r in zip(*rows)], 'axis': axis}
             if want is not None:
